@@ -137,6 +137,8 @@ pub enum Step {
     /// a hostile request on the victim's serving side
     PeerRequest { variant: String },
     Restart,
+    /// a fresh instance is started with this data model text
+    StartWith { text: String, shape: String },
 }
 
 // ------------------------------------------------------------------------------------------------ generation
@@ -457,6 +459,26 @@ fn mutate_text(r: &mut Rng, s: &str) -> String {
     c.into_iter().collect()
 }
 
+/// requests on the system entities (valid and not)
+const SYS_REQUESTS: [(&str, &str, &str); 12] = [
+    ("query", "query { sys.Room { id mdate admin { verif_key enabled } authorisations { name rights { entity mutate_self mutate_all } users { verif_key enabled } user_admin { verif_key } } } }", "sys-room"),
+    ("query", "query { sys.Peer { id pub_key name verifying_key } }", "sys-peer"),
+    ("query", "query { sys.AllowedPeer { id peer { name } meeting_token status } }", "sys-allowed-peer"),
+    ("query", "query { sys.AllowedHardware { id name status } }", "sys-hardware"),
+    ("query", "query { sys.Room (order_by(mdate desc), first 1) { id room_id cdate mdate verifying_key _json } }", "sys-room-system-fields"),
+    ("query", "query { sys.Authorisation { name } sys.UserAuth { verif_key } sys.EntityRight { entity } }", "sys-inner-entities"),
+    ("mutate", "mutate { sys.Peer { name:\"x\" } }", "sys-peer-write"),
+    ("mutate", "mutate { sys.AllowedPeer { status:\"enabled\" } }", "sys-allowed-peer-write"),
+    ("mutate", "mutate { sys.Room { id:$r admin:[{verif_key:\"not a key\"}] } }", "sys-room-bad-key"),
+    ("mutate", "mutate { sys.Room { id:$r authorisations:[{ name:\"g\" rights:[{entity:\"Nope\" mutate_self:true mutate_all:true}] }] } }", "sys-room-unknown-entity"),
+    ("mutate", "mutate { sys.Room { id:$r authorisations:[{ id:$r name:\"g\" }] } }", "sys-room-wrong-group-id"),
+    ("delete", "delete { sys.Room { $r } }", "sys-room-delete"),
+];
+const HOSTILE_PARAMS: [&str; 12] = [
+    "[]", "null", "\"text\"", "{\"r\":{\"nested\":1}}", "{\"r\":[1,2]}", "{\"r\":1e999}", "{\"r\":18446744073709551616}", "{\"r\":\"\\u0000\"}", "{\"r\":\"@ROOM\",\"r\":1}",
+    "{\"\":\"x\"}", "{\"r\":\"not base64 !!\"}", "{",
+];
+
 pub const ANSWER_KINDS: [&str; 9] = ["RoomDefinition", "RoomNode", "RoomLog", "RoomDailyNodes", "Nodes", "Edges", "NodeDeletionLog", "EdgeDeletionLog", "PeersForRoom"];
 pub const ANSWER_VARIANTS: [&str; 19] = [
     "garbage-bytes", "truncated", "empty", "huge-length-prefix", "answer-of-another-kind", "row-empty-key", "row-short-key", "row-long-key", "row-empty-signature",
@@ -475,7 +497,7 @@ pub fn generate(seed: u64, property: &str, thorough: bool) -> Trace {
     let mut steps = vec![Step::Model { text: render(&model), valid: true, shape: "generated-model".into() }];
     let n = if thorough { 25 + rw.usize(25) } else { 10 + rw.usize(14) };
     for _ in 0..n {
-        match rw.weighted(&[52, 18, 6, 10, 10, 4]) {
+        match rw.weighted(&[52, 18, 6, 10, 10, 4, 5, 4, 3]) {
             0 => steps.push(gen_request(&mut rw, &model)),
             1 => {
                 if let Step::Req { api, text, params, shape, .. } = gen_request(&mut rw, &model) {
@@ -492,7 +514,20 @@ pub fn generate(seed: u64, property: &str, thorough: bool) -> Trace {
                 steps.push(Step::PeerAnswer { kind, variant });
             }
             4 => steps.push(Step::PeerRequest { variant: rw.pick(&REQUEST_VARIANTS).to_string() }),
-            _ => steps.push(Step::Restart),
+            5 => steps.push(Step::Restart),
+            6 => {
+                let (api, text, shape) = *rw.pick(&SYS_REQUESTS);
+                steps.push(Step::Req { api: api.into(), text: text.into(), params: Some("{\"r\":\"@ROOM\"}".into()), valid: false, shape: shape.into() });
+            }
+            7 => {
+                if let Step::Req { api, text, shape, .. } = gen_request(&mut rw, &model) {
+                    steps.push(Step::Req { api, text, params: Some(rw.pick(&HOSTILE_PARAMS).to_string()), valid: false, shape: format!("hostile-params:{}", shape.split(':').next().unwrap_or("")) });
+                }
+            }
+            _ => {
+                let text = if rw.chance(1, 3) { render(&model) } else { mutate_text(&mut rw, &render(&model)) };
+                steps.push(Step::StartWith { text, shape: "mutated-model".into() });
+            }
         }
     }
     Trace {
@@ -865,6 +900,26 @@ fn exec_step(c: &mut Ctx, st: &Step) -> Result<String, String> {
             }
             c.w.fault("hostile_peer_request");
             Ok(format!("peer-request:{variant}"))
+        }
+        Step::StartWith { text, shape } => {
+            c.any = true;
+            let idx = c.w.nodes.len();
+            let mut conf = dv::Configuration::default();
+            conf.parallelism = 1;
+            let mut n = SimNode::new(idx, &format!("fresh{}", c.w.step_no), 150, &c.w.root, text, conf, c.now, c.w.report.seed + 9);
+            let r = n.start();
+            c.w.fault("start_with_model");
+            c.w.log.sched(format!("start-with {shape} ok={}", r.is_ok()));
+            if let Err(e) = &r {
+                c.w.log.log(format!("start error: {}", crate::kit::cut(e, 200)));
+                if e.starts_with("HUNG") {
+                    c.w.violation("C14", "hang/start-with-data-model", format!("starting an instance with a data model text never returns: {}", crate::kit::cut(text, 200)));
+                }
+            }
+            if n.is_up() {
+                n.stop();
+            }
+            Ok(format!("start-with:{shape}"))
         }
         Step::Restart => {
             restart(c)?;
